@@ -201,10 +201,24 @@ package manager
 //@ func makeTagInfo
 //@   prop C11
 //@   trusted
+// saveState: write-new-then-delete-old (C12). The old state file is removed only after the new one was created,
+// completely encoded and closed without an error; when anything fails the old file stays and stays the current
+// one. (The frame - nothing but mgr.stateFilename is written - is what the tag handlers of C11 rely on; it is
+// assumed, not verified: the encoder and the readers it calls are outside the heap model.)
+//@ log os.Create
+//@ log os.Remove
+//@ log (*encoding/json.Encoder).Encode
+//@ log (*os.File).Close
 //@ func (*Manager).saveState
 //@   prop C11
-//@   trusted
+//@   nosafety
+//@   noframe
 //@   modifies mgr.stateFilename
+//@   assert before call os.Remove#1: written_first@C12: ncalls("os.Create") == 1 && ncalls("(*encoding/json.Encoder).Encode") == 1 && \
+//@       ncalls("(*os.File).Close") == 1 && isnil(resultof("(*encoding/json.Encoder).Encode#1")) && isnil(resultof("(*os.File).Close#2")) && \
+//@       arg0 == old(mgr.stateFilename)
+//@   ensures kept@C12: implies(!isnil(result), mgr.stateFilename == old(mgr.stateFilename) && ncalls("os.Remove") == 0)
+//@   ensures switched@C12: implies(isnil(result), mgr.stateFilename == resultof("github.com/spq/pkappa2/internal/tools.MakeFilename#1") && ncalls("os.Remove") <= 1)
 //@ func (*Manager).startTaggingJobIfNeeded
 //@   prop C11
 //@   trusted
